@@ -302,6 +302,9 @@ class Encoder(object):
         chunk_length = length
 
         while True:
+            # Every length determinant of a fragmented value is
+            # octet aligned (no-op for UPER).
+            self.align()
             chunk_length = self.append_length_determinant(chunk_length)
 
             yield offset, chunk_length
@@ -515,6 +518,9 @@ class Decoder(object):
 
     def read_length_determinant_chunks(self):
         while True:
+            # Every length determinant of a fragmented value is
+            # octet aligned (no-op for UPER).
+            self.align()
             length = self.read_length_determinant()
 
             yield length
